@@ -246,7 +246,7 @@ static void construction_case(int T, unsigned rep) {
   static const uint64_t CN[] = {4, 16, 64, 256, 2048, 4096, 16384, 1024};
   for (int t = 0; t < T; t++) {
     memset(&th[t], 0, sizeof th[t]);
-    th[t].N = CN[rng_u64(r) % ARRAY_LEN(CN)];
+    th[t].N = CN[rng_u64(r) % (G.thorough ? ARRAY_LEN(CN) : 5)];  // quick tier: N <= 2048
     th[t].seed = rng_u64(r);
     th[t].bar = &bar;
     seq[t] = th[t];
